@@ -8,6 +8,7 @@ package imports
 
 import (
 	"bufio"
+	"bytes"
 	"errors"
 	"io"
 	"unicode/utf8"
@@ -200,8 +201,20 @@ func (r *importReader) readImport(imports *[]string) {
 
 // ReadComments is like ioutil.ReadAll, except that it only reads the leading
 // block of comments in the file.
+var bom = []byte{0xef, 0xbb, 0xbf}
+
+// newImportReader returns an importReader for f,
+// skipping a leading UTF-8 byte-order mark as go/build does.
+func newImportReader(f io.Reader) *importReader {
+	b := bufio.NewReader(f)
+	if leadingBytes, err := b.Peek(3); err == nil && bytes.Equal(leadingBytes, bom) {
+		b.Discard(3)
+	}
+	return &importReader{b: b}
+}
+
 func ReadComments(f io.Reader) ([]byte, error) {
-	r := &importReader{b: bufio.NewReader(f)}
+	r := newImportReader(f)
 	r.peekByte(true)
 	if r.err == nil && !r.eof {
 		// Didn't reach EOF, so must have found a non-space byte. Remove it.
@@ -213,7 +226,7 @@ func ReadComments(f io.Reader) ([]byte, error) {
 // ReadImports is like ioutil.ReadAll, except that it expects a Go file as input
 // and stops reading the input once the imports have completed.
 func ReadImports(f io.Reader, reportSyntaxError bool, imports *[]string) ([]byte, error) {
-	r := &importReader{b: bufio.NewReader(f)}
+	r := newImportReader(f)
 
 	r.readKeyword("package")
 	r.readIdent()
